@@ -76,26 +76,38 @@ MapIn == <<
   [s |-> "setkey", d |-> "-", c |-> <<[v |-> "GLIBC_2.0", t |-> {}]>>], [s |-> "setkey_r", d |-> "-", c |-> <<[v |-> "GLIBC_2.0", t |-> {}]>>],
   [s |-> "fcrypt", d |-> "-", c |-> <<[v |-> "GLIBC_2.0", t |-> {}]>> ] >>
 Flavours == {"yes", "glibc", "alt", "owl", "suse"}
-\* GLIBC versions below the platform's first glibc port are raised to it (x86_64: GLIBC_2.2.5)
-Floor == "GLIBC_2.2.5"
-Raised(v) == IF v \in {"GLIBC_2.0", "GLIBC_2.2", "GLIBC_2.2.1", "GLIBC_2.2.2"} THEN Floor ELSE v
+\* the %chain directives: the order of version nodes (a platform's first glibc port is one of the GLIBC entries)
+Chain == <<"GLIBC_2.0", "GLIBC_2.2", "GLIBC_2.2.1", "GLIBC_2.2.2", "GLIBC_2.2.5", "GLIBC_2.2.6", "GLIBC_2.3", "GLIBC_2.4", "GLIBC_2.12",
+           "GLIBC_2.16", "GLIBC_2.17", "GLIBC_2.18", "GLIBC_2.21", "GLIBC_2.27", "GLIBC_2.29", "GLIBC_2.32", "GLIBC_2.33", "GLIBC_2.35",
+           "GLIBC_2.36", "GLIBC_2.38", "OW_CRYPT_1.0", "XCRYPT_2.0", "XCRYPT_4.3", "XCRYPT_4.4">>
+Ord(v) == CHOOSE i \in 1..Len(Chain) : Chain[i] = v
+\* every platform: SYMVER_MIN = GLIBC_2.0, SYMVER_FLOOR = the port's first glibc; --disable-obsolete-api: both XCRYPT_2.0
+Floors == {Chain[i] : i \in 1..20}
+\* versions below min are dropped, versions below the floor are replaced by it (BuildCommon.pm, parse_version_map_in)
 Selected(c, abi) == c.t = {} \/ abi = "yes" \/ abi \in c.t
-\* [symbol, version, default?] a library of flavour abi must export
-MapFor(abi) == UNION {(IF MapIn[i].d = "-" THEN {} ELSE {<<MapIn[i].s, MapIn[i].d, TRUE>>})
-                      \cup {<<MapIn[i].s, Raised(MapIn[i].c[j].v), FALSE>> : j \in {k \in 1..Len(MapIn[i].c) : Selected(MapIn[i].c[k], abi)}}
-                      : i \in 1..Len(MapIn)}
+Placed(v, min, floor) == IF Ord(v) < Ord(min) THEN {} ELSE IF Ord(v) < Ord(floor) THEN {floor} ELSE {v}
+\* [symbol, version, default?] a library of flavour abi on a platform (min, floor) must export
+MapOn(abi, min, floor) ==
+  UNION {(IF MapIn[i].d = "-" THEN {} ELSE {<<MapIn[i].s, v, TRUE>> : v \in Placed(MapIn[i].d, min, floor)})
+         \cup UNION {{<<MapIn[i].s, v, FALSE>> : v \in Placed(MapIn[i].c[j].v, min, floor)} : j \in {k \in 1..Len(MapIn[i].c) : Selected(MapIn[i].c[k], abi)}}
+         : i \in 1..Len(MapIn)}
+MapFor(abi) == MapOn(abi, "GLIBC_2.0", "GLIBC_2.2.5")        \* this platform
 \* consistency of the transcription with the observed releases: the distribution's library is the glibc flavour, the
 \* full compat set is the yes flavour (checked as an ASSUME: a wrong transcription stops the run, exit 2)
 ASSUME MapFor("glibc") = Released
 ASSUME MapFor("yes") = Released \cup ReleasedCompatAll
-\* facts: what the TREE's generators emit for each flavour -- the linker version script (maps) and the symver
-\* macros the sources apply (symvers); both must provide every pair of MapFor
+\* facts: what the TREE's generators emit for each flavour and platform -- the linker version script (maps) and the
+\* symver macros the sources apply (symvers), keyed "<abi>/<floor>"; both must provide every pair of MapOn
 Pairs(list) == {<<list[i][1], list[i][2]>> : i \in 1..Len(list)}
+Configs == {[abi |-> a, min |-> "GLIBC_2.0", floor |-> f] : a \in Flavours, f \in Floors}
+             \cup {[abi |-> "no", min |-> "XCRYPT_2.0", floor |-> "XCRYPT_2.0"]}
+KeyOf(c) == c.abi \o "/" \o c.floor
 FlavourMissing ==
   IF "maps" \notin DOMAIN F THEN {}
-  ELSE UNION {{<<abi, "version-script", x[1], x[2]>> : x \in {y \in MapFor(abi) : <<y[1], y[2]>> \notin Pairs(F.maps[abi])}}
-              \cup {<<abi, "symver-macros", x[1], x[2]>> : x \in {y \in MapFor(abi) : <<y[1], y[2]>> \notin Pairs(F.symvers[abi])}}
-              : abi \in Flavours}
+  ELSE UNION {LET want == MapOn(c.abi, c.min, c.floor) IN
+              {<<KeyOf(c), "version-script", x[1], x[2]>> : x \in {y \in want : <<y[1], y[2]>> \notin Pairs(F.maps[KeyOf(c)])}}
+              \cup {<<KeyOf(c), "symver-macros", x[1], x[2]>> : x \in {y \in want : <<y[1], y[2]>> \notin Pairs(F.symvers[KeyOf(c)])}}
+              : c \in Configs}
 
 VARIABLE done
 Init == done = FALSE
@@ -105,5 +117,6 @@ Finish == done = FALSE \/
   JsonSerialize(IOEnv.XCV_VERDICT,
      [missing |-> {<<x[1], x[2]>> : x \in MissingSymbols}, alias |-> AliasBroken \cup {{s} : s \in VersionsDiffer}, layout |-> LayoutDiff, constants |-> ConstDiff,
       exported |-> Cardinality(Exported), released |-> Cardinality(ReleasedHere), flavour_missing |-> FlavourMissing,
-      flavour_pairs |-> [abi \in Flavours |-> Cardinality(MapFor(abi))]])
+      flavour_pairs |-> [abi \in Flavours |-> Cardinality(MapFor(abi))], configs |-> Cardinality(Configs),
+      config_pairs |-> Cardinality(UNION {{<<KeyOf(c), x>> : x \in MapOn(c.abi, c.min, c.floor)} : c \in Configs})])
 =============================================================================
